@@ -1399,6 +1399,11 @@ class Emitter:
             it = None
         if it is not None and it.base in ("xc_handle", "xc_opaque"):
             return self.expr(inner)   # opaque shim types have no base sub-object
+        hp = getattr(self.cfg, "handle_ptr_records", ())
+        if hp:
+            src_n = strip_ns((inner["type"].get("desugaredQualType") or inner["type"]["qualType"])).rstrip("*& ").split("::")[-1]
+            if src_n in hp:
+                return self.expr(inner)   # raw pointers obtained from / handed to owning handle shims: the handle value itself
         try:
             t = self.ctype(n["type"])
         except ExtractionError:
@@ -1444,6 +1449,10 @@ class Emitter:
         if ck == "ToVoid":
             return "(void)(%s)" % self.expr(inner)
         t = self.ctype(n["type"])
+        hp = getattr(self.cfg, "handle_ptr_records", ())
+        if hp and ck in ("BaseToDerived", "DerivedToBase", "UncheckedDerivedToBase") and \
+                strip_ns((n["type"].get("desugaredQualType") or n["type"]["qualType"])).rstrip("*& ").split("::")[-1] in hp:
+            return self.expr(inner)     # pointers to these records are owning-handle values of the boundary
         if ck == "BaseToDerived":
             # static_cast<Derived &>(base) / static_cast<Derived *>(base_ptr): records with dropped (field-less) bases start at the same address
             self.report["static_cast from a field-less base to the derived class turned into a pointer cast"] += 1
